@@ -188,3 +188,81 @@ Theorem C10_judge_binary_pivot : forall rec p1 p2 m n M m' n' M' v v' rest,
   (RelProofs.is01 (vget v V_REG) -> RelProofs.is01 (vget v' V_REG) -> vget v V_REG = vget v' V_REG).
 Proof. exact RelPivot7.judge_rel_kind7_verdicts. Qed.
 Print Assumptions C10_judge_binary_pivot.
+
+(* ---------- adding or removing a zero, unit or duplicated line (kind 4): the demanded equalities for regularity and
+   balancedness are theorems as well (RegClosure.v, BalClosure.v); with C10_* for TU and SP above, what remains classical for
+   kind 4 are the (co)graphic / (co)network verdicts ---------- *)
+From Cmr Require RegClosure BalClosure OneSum MatModel KsumModel.
+Theorem C10_regular_reducible_line : forall m' n' M' (isr : bool) k, wf_mat m' n' M' = true -> is_binary M' = true ->
+  (if isr then Nat.ltb k m' else Nat.ltb k n') = true -> line_reducible false m' n' M' isr k = true ->
+  TuModel.regular_bf m' n' M' =
+  (if isr then TuModel.regular_bf (m' - 1) n' (submat M' (keep_line m' k) (iota 0 n'))
+   else TuModel.regular_bf m' (n' - 1) (submat M' (iota 0 m') (keep_line n' k))).
+Proof. exact RegClosure.regular_bf_add_line. Qed.
+Print Assumptions C10_regular_reducible_line.
+
+Theorem C10_balanced_reducible_line : forall m' n' M' (isr : bool) k, is_ternary M' = true ->
+  (if isr then Nat.ltb k m' else Nat.ltb k n') = true -> line_reducible true m' n' M' isr k = true ->
+  balanced_bf m' n' M' =
+  (if isr then balanced_bf (m' - 1) n' (submat M' (keep_line m' k) (iota 0 n'))
+   else balanced_bf m' (n' - 1) (submat M' (iota 0 m') (keep_line n' k))).
+Proof. exact BalClosure.balanced_bf_add_line. Qed.
+Print Assumptions C10_balanced_reducible_line.
+
+Theorem C10_regular_submatrix : forall m n M rs cs, wf_mat m n M = true -> all_lt m rs = true -> all_lt n cs = true ->
+  TuModel.regular_bf m n M = true -> TuModel.regular_bf (length rs) (length cs) (submat M rs cs) = true.
+Proof. exact RegClosure.regular_bf_submat. Qed.
+Print Assumptions C10_regular_submatrix.
+
+Theorem C10_regular_transpose : forall m n M, wf_mat m n M = true ->
+  TuModel.regular_bf n m (transpose m n M) = TuModel.regular_bf m n M.
+Proof. exact RegClosure.regular_bf_transpose. Qed.
+Print Assumptions C10_regular_transpose.
+
+(* ---------- 1-sums: a block diagonal matrix is a yes-instance exactly when both blocks are (OneSum.v) ---------- *)
+Theorem C10_onesum_TU : forall m1 n1 A m2 n2 B, wf_mat m1 n1 A = true -> wf_mat m2 n2 B = true ->
+  tu_bf (m1 + m2) (n1 + n2) (MatModel.block_diag2 m1 n1 A m2 n2 B) = tu_bf m1 n1 A && tu_bf m2 n2 B.
+Proof. exact OneSum.tu_bf_onesum. Qed.
+Print Assumptions C10_onesum_TU.
+
+Theorem C10_onesum_regular : forall m1 n1 A m2 n2 B, wf_mat m1 n1 A = true -> wf_mat m2 n2 B = true ->
+  TuModel.regular_bf (m1 + m2) (n1 + n2) (MatModel.block_diag2 m1 n1 A m2 n2 B) =
+  TuModel.regular_bf m1 n1 A && TuModel.regular_bf m2 n2 B.
+Proof. exact OneSum.regular_bf_onesum. Qed.
+Print Assumptions C10_onesum_regular.
+
+Theorem C10_onesum_balanced : forall m1 n1 A m2 n2 B, wf_mat m1 n1 A = true -> wf_mat m2 n2 B = true ->
+  is_ternary A = true -> is_ternary B = true ->
+  balanced_bf (m1 + m2) (n1 + n2) (MatModel.block_diag2 m1 n1 A m2 n2 B) = balanced_bf m1 n1 A && balanced_bf m2 n2 B.
+Proof. exact OneSum.balanced_bf_onesum. Qed.
+Print Assumptions C10_onesum_balanced.
+
+Theorem C10_onesum_series_parallel : forall t m1 n1 A m2 n2 B, wf_mat m1 n1 A = true -> wf_mat m2 n2 B = true ->
+  sp_greedy t (m1 + m2) (n1 + n2) (MatModel.block_diag2 m1 n1 A m2 n2 B) = sp_greedy t m1 n1 A && sp_greedy t m2 n2 B.
+Proof. exact OneSum.sp_greedy_onesum. Qed.
+Print Assumptions C10_onesum_series_parallel.
+
+(* ---------- 2-sums of regular 0/1 matrices are regular, and the components of a regular 2-sum with nonzero connecting
+   lines are regular (RegClosure.v; the TU statements for the ternary 2-sum are in Properties_C12) ---------- *)
+Theorem C10_twosum_regular : forall m1 n1 M1 m2 n2 M2 r1 c2 M, wf_mat m1 n1 M1 = true -> wf_mat m2 n2 M2 = true ->
+  KsumModel.twosum 2 m1 n1 M1 m2 n2 M2 (Some r1) None None (Some c2) = KsumModel.KOk M ->
+  TuModel.regular_bf m1 n1 M1 = true -> TuModel.regular_bf m2 n2 M2 = true ->
+  TuModel.regular_bf (m1 - 1 + m2) (n1 + (n2 - 1)) M = true.
+Proof. exact RegClosure.regular_bf_twosum_row_col. Qed.
+Print Assumptions C10_twosum_regular.
+
+Theorem C10_twosum_regular_variant : forall m1 n1 M1 m2 n2 M2 c1 r2 M, wf_mat m1 n1 M1 = true -> wf_mat m2 n2 M2 = true ->
+  KsumModel.twosum 2 m1 n1 M1 m2 n2 M2 None (Some c1) (Some r2) None = KsumModel.KOk M ->
+  TuModel.regular_bf m1 n1 M1 = true -> TuModel.regular_bf m2 n2 M2 = true ->
+  TuModel.regular_bf (m1 + (m2 - 1)) (n1 - 1 + n2) M = true.
+Proof. exact RegClosure.regular_bf_twosum_col_row. Qed.
+Print Assumptions C10_twosum_regular_variant.
+
+Theorem C10_twosum_regular_components : forall m1 n1 M1 m2 n2 M2 r1 c2 M, wf_mat m1 n1 M1 = true -> wf_mat m2 n2 M2 = true ->
+  KsumModel.twosum 2 m1 n1 M1 m2 n2 M2 (Some r1) None None (Some c2) = KsumModel.KOk M ->
+  is_binary M1 = true -> is_binary M2 = true ->
+  (exists j, (j < n1)%nat /\ get M1 r1 j <> 0) -> (exists i, (i < m2)%nat /\ get M2 i c2 <> 0) ->
+  TuModel.regular_bf (m1 - 1 + m2) (n1 + (n2 - 1)) M = true ->
+  TuModel.regular_bf m1 n1 M1 = true /\ TuModel.regular_bf m2 n2 M2 = true.
+Proof. exact RegClosure.regular_bf_twosum_row_col_conv. Qed.
+Print Assumptions C10_twosum_regular_components.
